@@ -553,7 +553,11 @@ def c04(tier):
     rep = Report('C04', tier)
     mb = 8 if tier == 'quick' else 14
     thm(rep, 'crc112', 'every 1-/2-bit error and every burst of up to %d bits inside bits 6..112 has a non-zero syndrome for generator 0x1FFF409' % mb, maxburst=mb, workers=16)
-    thm(rep, 'crc56', 'DF11: every 1-/2-bit error and burst of up to %d bits confined to bits 6..49 is visible in the upper 17 syndrome bits' % mb, maxburst=mb)
+    # DF11: the rule looks at 17 of the 24 syndrome bits, so it is no cyclic code of its own; TLC finds bursts of 13 bits inside bits
+    # 6..49 whose syndrome has zero upper 17 bits (e.g. start 14, pattern 4401). Up to 12 bits every burst is visible.
+    mb56 = min(mb, 12)
+    thm(rep, 'crc56', 'DF11: every 1-/2-bit error and burst of up to %d bits confined to bits 6..49 is visible in the upper 17 syndrome bits '
+                      '(bursts of 13 bits that the DF11 rule cannot see exist)' % mb56, maxburst=mb56)
     rng = random.Random(vlib.seed())
     sq = valid_squitters(rng, 3 if tier == 'quick' else 10)
     groups = []
